@@ -16,6 +16,17 @@ CHECKS = {
                  "completion; every recorded call is one Transpose action of LayoutAbs and must leave exactly Block(shape, dest ordering, grid, "
                  "rank) on every rank, complete, and leave the source bit-identical when a buffer is given.",
          "note": _TB},
+ "C03": {"level": "model_checking", "design_ref": "DESIGN.md section 8, C03",
+         "technique": "TLA+ spec (Layouts/LayoutAbs + SwapperBoxMC candidate groupings checked by TLC); accepted groupings are driven through random transpose histories on the real LayoutSwapper and every call is trace-validated (C03Trace)",
+         "text": "TLC enumerates/samples candidate groupings (a 2-D group plus groups on single process directions, grids in {1,2,3}^2 incl. "
+                 "equal extents and extents 1, 3-D and 4-D shapes) and checks the abstract layout model on them. Every grouping the real "
+                 "constructor accepts is driven through a random history of LayoutSwapper.transpose calls (all layout pairs reachable, "
+                 "buffer given or not, float/complex/int tokens, exact-size sentinel-padded arrays, random schedules); C03Trace requires "
+                 "after every call: the call completed, each rank holds Block(shape, dest ordering, dest process vector, its rank "
+                 "coordinates) - hence replicas are identical and round trips reproduce the original blocks -, the ranks' coordinates "
+                 "cover every block of the destination partition, the source is intact when a buffer is given, and the swapper's public "
+                 "current-manager properties describe the destination layout.",
+         "note": _TB},
  "C02": {"level": "model_checking", "design_ref": "DESIGN.md section 8, C02",
          "technique": "TLA+ spec (Partition/Layouts) model-checked with TLC + trace validation of tables, Layout objects and Grid accessors recorded from the real classes",
          "text": "TLC checks the transcribed split formula against the formula-independent statement (exact tiling in rank order, "
